@@ -127,14 +127,32 @@ fn queue_file_range(
         let off = range.start + (blkn * bsize);
 
         pool.execute(move || {
-            let copy_result = copy_file_offset(&harc.infd, &harc.outfd, bytes, off as i64);
-            let stat_result = match copy_result {
-                Ok(bytes) => {
-                    stat_tx.send(StatusUpdate::Copied(bytes as u64))
-                }
-                Err(e) => {
-                    error!("Error copying: aborting.");
-                    stat_tx.send(StatusUpdate::Error(XcpError::CopyError(e.to_string())))
+            // The kernel may copy fewer bytes than requested; keep
+            // going until the block is complete. A zero-length copy
+            // is only expected at the end of the source (extent
+            // ranges may overhang the file end).
+            let mut done = 0;
+            let stat_result = loop {
+                let copy_result = copy_file_offset(&harc.infd, &harc.outfd, bytes - done, (off + done) as i64);
+                match copy_result {
+                    Ok(0) if off + done >= harc.metadata.len() => break Ok(()),
+                    Ok(0) => {
+                        error!("Error copying: source file ended prematurely; aborting.");
+                        break stat_tx.send(StatusUpdate::Error(XcpError::CopyError("Source file ended prematurely.".to_string())));
+                    }
+                    Ok(copied) => {
+                        done += copied as u64;
+                        if let Err(e) = stat_tx.send(StatusUpdate::Copied(copied as u64)) {
+                            break Err(e);
+                        }
+                        if done >= bytes {
+                            break Ok(());
+                        }
+                    }
+                    Err(e) => {
+                        error!("Error copying: aborting.");
+                        break stat_tx.send(StatusUpdate::Error(XcpError::CopyError(e.to_string())));
+                    }
                 }
             };
             if let Err(e) = stat_result {
